@@ -169,8 +169,39 @@ pub fn spelled_upper(sp: Spelling, i: usize, n: usize) -> bool {
     }
 }
 
+/// The octets of one label of a `RelName`. Labels are arbitrary octet
+/// strings; a `RelName` label carries one octet per `char` (U+0000..U+00FF).
+/// For the ASCII labels every older user of the fixture has this is `as_bytes()`.
+pub fn label_octets(l: &str) -> Vec<u8> {
+    l.chars().map(|c| c as u32 as u8).collect()
+}
+
+/// Inverse of `label_octets`.
+pub fn octets_label(o: &[u8]) -> String {
+    o.iter().map(|b| *b as char).collect()
+}
+
+/// A label that can be written as is in presentation format.
+fn plain_label(l: &str) -> bool {
+    !l.is_empty() && l.bytes().all(|b| b.is_ascii_alphanumeric() || b == b'*' || b == b'-' || b == b'_')
+}
+
 pub fn spelled_name(rel: &RelName, sp: Spelling) -> StoredName {
     let n = rel.len() + 1;
+    if !rel.iter().all(|l| plain_label(l)) {
+        // labels with arbitrary octets (C08 label-octet axis): straight from the wire form
+        let mut w = Vec::new();
+        for (i, l) in rel.iter().rev().map(|l| l.as_str()).chain(std::iter::once(APEX)).enumerate() {
+            let mut o = label_octets(l);
+            if spelled_upper(sp, i, n) {
+                o.make_ascii_uppercase();
+            }
+            w.push(o.len() as u8);
+            w.extend_from_slice(&o);
+        }
+        w.push(0);
+        return Name::from_octets(Bytes::from(w)).expect("fixture: label list is not a valid name");
+    }
     let mut s = String::new();
     for (i, l) in rel.iter().rev().map(|l| l.as_str()).chain(std::iter::once(APEX)).enumerate() {
         if spelled_upper(sp, i, n) {
@@ -294,7 +325,7 @@ pub struct Expected {
 }
 
 fn owner_wire(rel: &RelName) -> Vec<u8> {
-    let mut labels: Vec<Vec<u8>> = rel.iter().rev().map(|l| l.as_bytes().to_vec()).collect();
+    let mut labels: Vec<Vec<u8>> = rel.iter().rev().map(|l| label_octets(l)).collect();
     labels.push(APEX.as_bytes().to_vec());
     crate::wire::to_wire(&labels)
 }
@@ -596,7 +627,8 @@ pub async fn node_for(apex: &dyn WritableZoneNode, name: &RelName) -> Option<Box
     for (k, l) in name.iter().enumerate() {
         // (label k from the apex downwards is label len-1-k from the left of the absolute name)
         let l = if spelled_upper(sp, name.len() - 1 - k, name.len() + 1) { l.to_ascii_uppercase() } else { l.clone() };
-        let label = Label::from_slice(l.as_bytes()).unwrap();
+        let l = label_octets(&l);
+        let label = Label::from_slice(&l).unwrap();
         let next = match &cur {
             None => apex.update_child(label).await.unwrap(),
             Some(n) => n.update_child(label).await.unwrap(),
